@@ -420,6 +420,10 @@ func parseProposalAnswer(str string, props []*Proposal, l *log.Logger) error {
 }
 
 func (s *Session) writeCompressed(rw io.ReadWriter, p *Proposal) (err error) {
+	if p.offset < 0 || p.offset > len(p.compressedData) {
+		return fmt.Errorf("Remote requested offset %d, but the compressed message is only %d bytes", p.offset, len(p.compressedData))
+	}
+
 	s.log.Printf("Transmitting [%s] [offset %d]", p.title, p.offset)
 
 	if p.code == GzipProposal {
